@@ -1,6 +1,7 @@
 package main
 
 import (
+	"strings"
 	"fmt"
 	"go/token"
 	"go/types"
@@ -1066,6 +1067,10 @@ func resultHasOnlyErr(v ssa.Value) bool {
 	return true
 }
 
+// mapReduceKeyFilter, when set, keeps only the obligations of checkMapReduce whose key contains it (C20.Z10 shares the
+// "cancel closed at most once" obligations: a second close panics the caller).
+var mapReduceKeyFilter string
+
 // checkMapReduce enforces the channel protocol of one concurrent transfer function.
 func checkMapReduce(c *Ctx, fn *ssa.Function, name string, rule string, joinOnly bool) {
 	p := c.P
@@ -1074,10 +1079,16 @@ func checkMapReduce(c *Ctx, fn *ssa.Function, name string, rule string, joinOnly
 		if joinOnly && !join {
 			return
 		}
+		if mapReduceKeyFilter != "" && !strings.Contains(key, mapReduceKeyFilter) {
+			return
+		}
 		c.check(ok, rule, key, pos, good, bad)
 	}
 	cbad := func(join bool, key, pos, why string) {
 		if joinOnly && !join {
+			return
+		}
+		if mapReduceKeyFilter != "" && !strings.Contains(key, mapReduceKeyFilter) {
 			return
 		}
 		c.bad(rule, key, pos, why)
@@ -1662,18 +1673,43 @@ func checkLatchedWrites(c *Ctx, rule string, w *ssa.Function, writes []ssa.Instr
 			}
 			stores, closes := false, false
 			if failEdge != nil && latch != "" {
-				stores = !reachFromBlock(failEdge, isReturn, func(in ssa.Instruction) bool {
+				// every way from the Write to a return either takes the nil side of a test of its error, or passes the
+				// store to the latch (and the Close): an early return in front of the test — for one kind of error, say a
+				// timeout — leaves a torn frame on a connection that goes on being used
+				var tests []nilTest
+				for _, r := range *call.Referrers() {
+					if ex, ok := r.(*ssa.Extract); ok && ex.Index == 1 {
+						tests = append(tests, nilTests(ex)...)
+					}
+				}
+				nilEdge := func(a, b *ssa.BasicBlock, _ int) bool {
+					for _, nt := range tests {
+						if nt.iff.Block() == a && nt.isNil == b && nt.isNil != nt.nonNil {
+							return true
+						}
+					}
+					return false
+				}
+				idx := 0
+				for k, in := range call.Block().Instrs {
+					if in == ssa.Instruction(call) {
+						idx = k + 1
+					}
+				}
+				isLatch := func(in ssa.Instruction, _ int) bool {
 					st, ok := in.(*ssa.Store)
 					if !ok {
 						return false
 					}
 					t, name, _, ok := fieldOf(st.Addr)
 					return ok && typeName(t) == "conn" && name == latch && !isNilConst(st.Val)
-				})
-				closes = !reachFromBlock(failEdge, isReturn, func(in ssa.Instruction) bool {
+				}
+				isCloseCall := func(in ssa.Instruction, _ int) bool {
 					cc := callOf(in)
 					return cc != nil && cc.IsInvoke() && cc.Method.Name() == "Close"
-				})
+				}
+				stores = !reachStagedX(call.Block(), idx, []func(ssa.Instruction) bool{isReturn}, isLatch, nilEdge)
+				closes = !reachStagedX(call.Block(), idx, []func(ssa.Instruction) bool{isReturn}, isCloseCall, nilEdge)
 			}
 			c.check(latch != "" && stores && closes, rule, key, p.Pos(call.Pos()), "tests conn."+latch+" before writing, stores the failure there and closes the transport",
 				fmt.Sprintf("%s does not latch a failed write (tested before writing: %v, failure stored: %v, transport closed: %v): after a Write that fails inside a frame the next request is written behind the torn frame and is never answered", fnName(w), latch != "", stores, closes))
